@@ -122,9 +122,11 @@ func cmdFunc(args []string) {
 	jobs := fl.Int("j", 16, "parallel solver jobs")
 	keep := fl.String("keep", "", "directory for SMT files of undischarged obligations")
 	verbose := fl.Bool("v", false, "print every obligation")
+	propFlag := fl.String("prop", "", "check as this property (clauses tagged for other properties are skipped)")
 	fl.Parse(args)
 	t0 := time.Now()
 	w := mustLoad(*repo)
+	w.curProp = *propFlag
 	fmt.Printf("loaded in %.1fs, %d contracts\n", time.Since(t0).Seconds(), len(w.contracts))
 	var frs []*FuncResult
 	for _, pat := range fl.Args() {
